@@ -421,8 +421,17 @@ def rule_r4(ctx: Ctx) -> None:
         if m.fullname in seen:
             return False
         seen.add(m.fullname)
+        def builds_grammar(c) -> bool:
+            return isinstance(c, ast.Call) and (isinstance(c.func, ast.Name) and c.func.id == gcls.name
+                                                or isinstance(c.func, ast.Call) and call_name(c.func) == "type"
+                                                or isinstance(c.func, ast.Attribute) and c.func.attr == "__class__")
+        fresh_names = {a.targets[0].id for a in walk_local(m.node) if isinstance(a, ast.Assign) and len(a.targets) == 1 and isinstance(a.targets[0], ast.Name)
+                       and builds_grammar(a.value)}
         adopts = any(isinstance(x, ast.Attribute) and x.attr == "__dict__" and isinstance(x.value, ast.Name) and x.value.id == "self"
-                     for x in walk_local(m.node)) or any(isinstance(x, ast.Call) and call_name(x) in ("setattr", "vars") for x in walk_local(m.node))
+                     for x in walk_local(m.node)) or any(isinstance(x, ast.Call) and call_name(x) in ("setattr", "vars") for x in walk_local(m.node)) \
+            or any(isinstance(a, ast.Assign) and any(isinstance(t, ast.Attribute) and isinstance(t.value, ast.Name) and t.value.id == "self" for t in a.targets)
+                   and isinstance(a.value, ast.Attribute) and isinstance(a.value.value, ast.Name) and a.value.value.id in fresh_names
+                   for a in walk_local(m.node))      # table by table: self.alternatives = rebuilt.alternatives, ...
         for c in walk_local(m.node):
             if adopts and isinstance(c, ast.Call) and (isinstance(c.func, ast.Name) and c.func.id == gcls.name
                                                        or isinstance(c.func, ast.Call) and call_name(c.func) == "type"
@@ -469,6 +478,9 @@ def rule_r4(ctx: Ctx) -> None:
                     if p_ not in bound and isinstance(d_, ast.Constant):
                         bound[p_] = d_.value
                 fresh_args.append(bound)
+                for attr_, param_ in config:         # the fresh grammar stores what it was built with
+                    if param_ in bound:
+                        it.heap[("fresh-grammar", attr_)] = bound[param_]
                 return Sym("fresh-grammar")
             return None
 
